@@ -37,6 +37,9 @@ CORPUS_PROGRAMS = [
     ("if_decl.cpp", "int x;\nint f(int a) { if (int x = a) { return x; } else { return x + 1; } return x; }\n"),
     ("ns.cpp", "int a;\nnamespace N { int a = 1; int f() { return a + ::a; } }\nint g(int a) { return a + ::a + N::a; }\n"),
     ("lambda.cpp", "int f(int a) { int b = 1; auto l = [&](int a) { return a + b; }; return l(a) + a; }\n"),
+    ("derived_redeclares_member.cpp", "struct Base {\n    int count;\n    Base();\n    void bump();\n};\nstruct Derived : Base {\n    int count;\n    Derived();\n    int get() const;\n    void reset();\n};\n"
+                                      "Base::Base() : count(0) {}\nvoid Base::bump() { count++; }\nDerived::Derived() : count(7) {}\nint Derived::get() const { return count + this->count + Base::count; }\nvoid Derived::reset() { count = 0; }\n"),
+    ("member_vs_global.cpp", "int n = 7;\nstruct B {\n  int n;\n  int inl() const { return n; }\n  int get();\n};\nint B::get() { return n; }\n"),
     ("overload.cpp", "int o(int x) { return x; }\nint o(double x) { return 2; }\nint o(int x, int y = 0);\nint h() { return o(1) + o(1.5); }\n"),
 ]
 
@@ -110,9 +113,9 @@ def analyse_program(run, model, path, cpp, use_clang, stats):
         for uses in dl[:1]:
             n, bad = NC.compare_with_clang(uses, decls, cuses)
             a, b = NC.varid_partition_check(uses)
-            for (l, c, s_, vdecl, ent) in bad:
+            for (l, c, s_, vdecl, ent, cls) in bad:
                 run.count("clang oracle", None, bucket="differs")
-                problems.append(("undo-log" if (l, c) in redecl_sites else "resolution",
+                problems.append(("undo-log" if (l, c) in redecl_sites else (cls or "resolution"),
                                  {"file": path, "site": [l, c], "name": s_, "cppcheck_declaration": list(vdecl) if isinstance(vdecl, tuple) else vdecl,
                                   "clang_declarations": ent}))
             for _ in range(n - len(bad)):
@@ -272,6 +275,10 @@ def check(run, replay):
             key = "leaveScope-replays-undo-log-forwards"
             what = ("REGRESSION of /repo f35544d: a name declared twice inside one VariableMap frame (C: `for (int i..) { int i; }`) is restored to the first inner declaration when the frame is left: "
                     "the use of '%s' at %s is linked to the declaration at %s, clang binds it to %s" % (dd["name"], dd["site"], dd["cppcheck_declaration"], dd["clang_declarations"]))
+        elif kind == "member-vs-global":
+            key = "member-function-use-binds-earlier-global"
+            what = ("inside a member function (out-of-class definition, or a derived class using an inherited member) an unqualified use of a data member "
+                    "whose name was declared earlier at namespace scope is linked to that global: '%s' at %s -> cppcheck %s, clang %s" % (dd["name"], dd["site"], dd["cppcheck_declaration"], dd["clang_declarations"]))
         elif kind == "resolution":
             key = "resolution:" + hashlib.sha1(small.encode()).hexdigest()[:10]
             what = "use of '%s' at %s: cppcheck links the declaration at %s, clang binds %s" % (dd["name"], dd["site"], dd["cppcheck_declaration"], dd["clang_declarations"])
